@@ -13,12 +13,9 @@ ASSUME = ["every disk state of the closed graph is reachable by damage events al
 
 def run(ctx):
     def once():
-        ev, vd = archive.small_scope(ctx, ["C14."])
-        ev2, vd2 = archive.big_sets(ctx, ["C14."], "c14")
-        base = len(ev)
-        ev3, vd3 = archive.par1_family(ctx, ["C14."])
-        base3 = base + len(ev2)
-        return ev + ev2 + ev3, vd + [dict(v, i=v["i"] + base) for v in vd2] + [dict(v, i=v["i"] + base3) for v in vd3]
+        return archive.combine(archive.small_scope(ctx, ["C14."]),
+                               archive.big_sets(ctx, ["C14."], "c14"),
+                               archive.par1_family(ctx, ["C14."]))
     events, verdicts = once()
     ctx.samples = archive.pick_samples(events)
     return ctx.finish(verdicts, events, RULE, ASSUME, rerun=once)
